@@ -42,6 +42,11 @@ CHECKS = {
          'Slates are generated structurally over 12 dimensions (state, amount, fee, ttl, kernel feature+args, offset, num_participants, participant data / partial signatures, commitments, payment proof, version info, id) with real keys, signatures, commitments and range proofs: quick = exact 2-wise product (2,129 slates), thorough = 4-wise product plus the full product over presence classes (359,483 slates). Every slate goes through V4 JSON, V4 binary (two serializers), slatepack binary/JSON/armored and, for 105 representatives, every encrypted form (wallet API and packer, 3 recipient sets, with/without sender); decode(encode(x)) is compared field by field with x and all encodings with each other. 64 keys x 2 networks of slatepack/onion addresses and boundary sweeps of OutputData/TxLogEntry/Context records through ser and a real LMDB wallet round-trip too.',
          'Byte-level canonical form is not asserted. Tx kernel and offset are compared against what the wallet derives from the slate-level fields. Binary-format normalisation of stray arguments (feat 0 with an argument, feat 2 without) is counted, not flagged.',
          'DESIGN.md §3 C08'),
+ 'C10': ('model_checking',
+         'exhaustive enumeration of (message, key) pairs and of every single-byte / single-character edit of real slatepack messages',
+         '12 real slates from real exchanges x sender {none, some} x every recipient subset of size 1..3 of 4 wallets are packed by the wallet itself; every message is opened with each of 20 keys (4 wallets x derivation indices 0..3 and a second account): decrypts to the original slate and sender iff the key is a recipient\'s (packer path and wallet API path). Every encrypted message is searched for every high-entropy field of its slate and every form of the sender address (and every 12-byte plaintext window), with a control showing the needles are found in the unencrypted forms. Every single-byte edit (3 values) of every payload byte of every encrypted message must be rejected; header edits must not yield a different result; every single-character substitution / insertion (61-character alphabet) / deletion / transposition of armored messages must give an error or the identical slate (a true 32-bit check collision is classified separately by an independent reference decoder). Quick runs a stated subset.',
+         'Cryptographic strength of age/x25519 is assumed; wrong keys are the enumerated ones. Messages above 2,400 characters use a reduced substitution alphabet in thorough (stated per message in the evidence).',
+         'DESIGN.md §3 C10'),
  'C13': ('model_checking',
          'explicit-state breadth-first search over request-envelope sequences on the real owner API handler, cross-checked by complete undeduplicated trees',
          'An 86-envelope alphabet (plaintext key exchange; plaintext calls; calls under the current, previous and never-negotiated key; body/nonce bit flips; wrong envelope method; batches; nested envelopes; malformed envelopes; key rotation inside the channel), each built for the current state, is posted in-process to the real OwnerAPIHandlerV3. BFS with dedup runs to a fixpoint (25 states) and the complete tree of depth 2 (quick, 7,396 paths) / depth 3 (thorough, 636,056 paths) is executed without dedup; the projected state sets must agree. Oracle per request: unauthenticated => JSON-RPC error without result, wallet directory byte-identical, shared key and open/closed state unchanged; authenticated => reply encrypted under the same key; a superseded key no longer authenticates.',
@@ -52,6 +57,11 @@ CHECKS = {
          'Every call shape of every token-taking api::Owner method (36 shapes, 22 in the guarded class fixed in DESIGN.md) x 6 tokens (right, absent, random, right^bit0, right^bit255, another wallet\'s) x 5 wallet states (fresh, funded, pending send, pending receive, issued invoice) is executed against a wallet opened with a keychain mask; thorough adds every single-bit neighbour of the right token. Oracle: guarded + wrong token => InvalidKeychainMask and byte-identical store (raw LMDB dump + files); any method + wrong token => store unchanged; closed wallet refuses; a 25-step history gives equal projections on a masked and an unmasked wallet with the same seed.',
          'Guarded class is taken from the API documentation (DESIGN.md table), not from the code. start_updater is only checked for an unchanged store.',
          'DESIGN.md §3 C14'),
+ 'C16': ('model_checking',
+         'exhaustive enumeration of chain states x restore start heights x injected divergences x page sizes with a chain-truth oracle',
+         'For every chain/wallet state of a stated set reachable with the C04 alphabet (base states, every operation followed by a block; thorough: every pair) a new wallet is restored from the seed and scanned from every start height 0..tip (restored Unspent records must equal the seed\'s UTXOs at heights >= start in value, height, coinbase flag, lock height and account; spendable total must equal the chain truth), and every single (quick) / pair (thorough) of divergences from {deleted record, Unspent->Spent, Unspent->Locked with dangling entry, stale unconfirmed output, locked by a never-posted tx, cancel-after-post, 2-block reorg} is injected into the original wallet and repaired by scan (with delete_unconfirmed where the statement requires it); afterwards every account\'s books must equal the chain truth, and a second scan must change nothing. Node page sizes 1,2,3 exercise the scan batch loop; thorough adds a 1030-block chain crossing the real 1000-output batch.',
+         'Chain truth = UTXOs whose range proof rewinds with the seed; account = parent path of the key.',
+         'DESIGN.md §3 C16'),
  'C17': ('model_checking',
          'exhaustive parameter sweep of the real protocol steps and refresh on real worlds',
          'Every combination of protocol step {receive_tx, process_invoice_tx, owner finalize_tx, foreign finalize_tx} x cutoff class {0, 1, h-1, h, h+1, u64::MAX} relative to the height the wallet has observed x staleness of that observation x other pending transactions, and every combination of ttl_blocks {none,1,2,3,50} x blocks mined 0..4 x side {sender, recipient} x other pending transactions for refresh, is executed; oracle: refused iff cutoff != 0 and observed height >= cutoff, refusals change nothing, unexpired slates complete, refresh cancels exactly the expired pending transactions and releases their inputs.',
